@@ -564,6 +564,7 @@ func (c *Ctx) adp9() {
 			}
 		}
 	}
+	c.adp9Sorted(ad, paths, lc, kinds)
 	want := map[string]int{"non-empty-list⇒its-counters-installed": 2, "Acked=first(ALO)": 1, "atLeastOnce.acceptN=last(ALO)+1": 1, "Completed=first(REL|EO)": 2, "Received=last(REL)+1|Completed": 2, "exactlyOnce.acceptN=last(EO|REL)+1": 2, "submitN=acceptN": 2}
 	for n, a := range accs {
 		a.done(want[n], "holds on every path that installs the counter")
@@ -957,4 +958,257 @@ func (c *Ctx) adp4Junction(ad *ssa.Function, a *acc, lc *listClasses, kinds map[
 			a.pass()
 		}
 	}
+}
+
+// adp9Sorted: the continuity check speaks about the order in which the
+// records were saved. Each of the three lists reaches cleanSequence sorted by
+// the storage sequence number its records carry (List gives no order):
+// on every path a sort.Slice of the same list precedes the cleaning, and its
+// less function compares the sequence numbers decodeValue returned for the
+// two keys.
+func (c *Ctx) adp9Sorted(ad *ssa.Function, paths []*pathx.Path, lc *listClasses, kinds map[ssa.Value]listKind) {
+	clean := c.P.Func("cleanSequence")
+	dec := c.P.Func("decodeValue")
+	if clean == nil || dec == nil {
+		return
+	}
+	a := c.acc("ADP-9", ad, "cleanSequence-receives-the-list-sorted-by-storage-sequence")
+	// the cell a captured variable stands for
+	bound := func(v ssa.Value) ssa.Value {
+		fv, ok := v.(*ssa.FreeVar)
+		if !ok {
+			return v
+		}
+		fn := fv.Parent()
+		for i, x := range fn.FreeVars {
+			if x == fv {
+				for _, mc := range closureSites(fn) {
+					if i < len(mc.Bindings) {
+						return mc.Bindings[i]
+					}
+				}
+			}
+		}
+		return v
+	}
+	// what a less function orders by: (list, map) when it returns M[L[i]] < M[L[j]]
+	lessShape := func(f *ssa.Function) (list, m ssa.Value, ok bool) {
+		if f == nil || len(f.Params) != 2 {
+			return nil, nil, false
+		}
+		side := func(v ssa.Value, idx *ssa.Parameter) (ssa.Value, ssa.Value, bool) {
+			v = stripConv(v)
+			if ex, isEx := v.(*ssa.Extract); isEx {
+				v = ex.Tuple
+			}
+			lk, isL := v.(*ssa.Lookup)
+			if !isL {
+				return nil, nil, false
+			}
+			u, isU := stripConv(lk.Index).(*ssa.UnOp)
+			if !isU || u.Op != token.MUL {
+				return nil, nil, false
+			}
+			ia, isIA := u.X.(*ssa.IndexAddr)
+			if !isIA || stripConv(ia.Index) != ssa.Value(idx) {
+				return nil, nil, false
+			}
+			l := ia.X
+			if lu, isLoad := l.(*ssa.UnOp); isLoad && lu.Op == token.MUL {
+				l = lu.X
+			}
+			mm := lk.X
+			if mu, isLoad := mm.(*ssa.UnOp); isLoad && mu.Op == token.MUL {
+				mm = mu.X
+			}
+			return bound(l), bound(mm), true
+		}
+		for _, b := range f.Blocks {
+			for _, ins := range b.Instrs {
+				r, isR := ins.(*ssa.Return)
+				if !isR || len(r.Results) != 1 {
+					continue
+				}
+				bo, isB := stripConv(r.Results[0]).(*ssa.BinOp)
+				if !isB {
+					return nil, nil, false
+				}
+				x, y := bo.X, bo.Y
+				switch bo.Op {
+				case token.LSS, token.LEQ:
+				case token.GTR, token.GEQ:
+					x, y = y, x
+				default:
+					return nil, nil, false
+				}
+				l1, m1, ok1 := side(x, f.Params[0])
+				l2, m2, ok2 := side(y, f.Params[1])
+				if !ok1 || !ok2 || l1 != l2 || m1 != m2 {
+					return nil, nil, false
+				}
+				return l1, m1, true
+			}
+		}
+		return nil, nil, false
+	}
+	// the map that receives decodeValue's sequence number
+	seqMap := func(m ssa.Value) bool {
+		for _, b := range c.regionBlocks(ad) {
+			for _, ins := range b.Instrs {
+				mu, ok := ins.(*ssa.MapUpdate)
+				if !ok {
+					continue
+				}
+				mm := mu.Map
+				if u, isLoad := mm.(*ssa.UnOp); isLoad && u.Op == token.MUL {
+					mm = u.X
+				}
+				if bound(mm) != m && mm != m {
+					continue
+				}
+				if ex, isEx := stripConv(mu.Value).(*ssa.Extract); isEx && ex.Index == 1 {
+					if call, isCall := ex.Tuple.(*ssa.Call); isCall && call.Call.StaticCallee() == dec {
+						return true
+					}
+				}
+			}
+		}
+		return false
+	}
+	isNilList := func(v ssa.Value) bool {
+		k, ok := stripConv(v).(*ssa.Const)
+		return ok && k.Value == nil
+	}
+	var resolved ssa.Value
+	// resolve follows a value on the path: through interface boxes, the phi
+	// operands taken, a helper's parameters and results, and the local cells
+	// of a helper (a parameter captured by a function literal is copied into
+	// one) by the last store ahead of event upto.
+	resolve := func(p *pathx.Path, v ssa.Value, upto int) ssa.Value {
+		binds := pathBindings(p)
+		choice := phiChoicesAll(p)
+		for d := 0; d < 24; d++ {
+			v = stripConv(v)
+			if mi, ok := v.(*ssa.MakeInterface); ok {
+				v = mi.X
+				continue
+			}
+			if phi, ok := v.(*ssa.Phi); ok {
+				if e, ok := choice[phi]; ok {
+					v = e
+					continue
+				}
+			}
+			if b, ok := binds[v]; ok && b != v {
+				v = b
+				continue
+			}
+			cell := v
+			if u, ok := v.(*ssa.UnOp); ok && u.Op == token.MUL {
+				cell = u.X
+			}
+			{
+				if al, ok := cell.(*ssa.Alloc); ok && al.Parent() != ad {
+					var last ssa.Value
+					for i := 0; i < upto && i < len(p.Events); i++ {
+						if e := &p.Events[i]; e.Kind == pathx.KStore && e.Addr == ssa.Value(al) {
+							last = e.Val
+						}
+					}
+					if last != nil {
+						v = last
+						continue
+					}
+				}
+			}
+			break
+		}
+		return v
+	}
+	classOfAt := func(p *pathx.Path, v ssa.Value, upto int) ssa.Value {
+		v = resolve(p, v, upto)
+		resolved = v
+		cls := lc.find(v)
+		if _, ok := kinds[cls]; ok {
+			return cls
+		}
+		return nil
+	}
+	for _, p := range paths {
+		sorted := map[ssa.Value]bool{}
+		for i := range p.Events {
+			e := &p.Events[i]
+			if e.Kind != pathx.KCall {
+				continue
+			}
+			if (isStd(e, "sort.Slice") || isStd(e, "sort.SliceStable")) && len(e.Args) == 2 {
+				cls := classOfAt(p, e.Args[0], i)
+				if cls == nil {
+					continue
+				}
+				var lf *ssa.Function
+				switch x := e.Args[1].(type) {
+				case *ssa.MakeClosure:
+					lf, _ = x.Fn.(*ssa.Function)
+				case *ssa.Function:
+					lf = x
+				}
+				l, m, ok := lessShape(lf)
+				if !ok {
+					a.fail(p, i, "the %s list is sorted by something else than the storage sequence numbers of its keys (less function not of the form seq[list[i]] < seq[list[j]])", kinds[cls])
+					continue
+				}
+				if lcls := lc.find(resolve(p, loadOfCell(l), i)); lcls != cls {
+					// the literal indexes the variable it captured: same class as the sorted value
+					if _, known := kinds[lcls]; known {
+						a.fail(p, i, "the %s list is sorted with a less function that looks at the %s list", kinds[cls], kinds[lcls])
+						continue
+					}
+				}
+				if !seqMap(m) && !seqMap(cellOrValue(resolve(p, loadOfCell(m), i))) {
+					a.fail(p, i, "the %s list is sorted by a map that does not hold the sequence numbers decodeValue returned", kinds[cls])
+					continue
+				}
+				sorted[cls] = true
+			}
+			if e.Callee == clean && len(e.Args) > 0 {
+				cls := classOfAt(p, e.Args[0], i)
+				if cls == nil {
+					if isNilList(resolved) {
+						continue // nothing was filed in this list on this path: no order to speak of
+					}
+					a.fail(p, i, "cleanSequence is given a list the rule cannot identify")
+					continue
+				}
+				if sorted[cls] {
+					a.pass()
+				} else {
+					a.fail(p, i, "the %s list reaches the continuity check in the order List returned its keys: a session whose store lists records in any other order than they were saved loses them as 'gaps' (or resumes them in the wrong order)", kinds[cls])
+				}
+			}
+		}
+	}
+	a.done(3, "each list is sorted by seq[key] ahead of cleanSequence on every path")
+}
+
+// loadOfCell: a synthetic "current content" reference to a cell, for resolve.
+func loadOfCell(v ssa.Value) ssa.Value {
+	if al, ok := v.(*ssa.Alloc); ok {
+		if refs := al.Referrers(); refs != nil {
+			for _, r := range *refs {
+				if u, ok := r.(*ssa.UnOp); ok && u.Op == token.MUL {
+					return u
+				}
+			}
+		}
+	}
+	return v
+}
+
+// cellOrValue: the cell behind a load, or the value itself.
+func cellOrValue(v ssa.Value) ssa.Value {
+	if u, ok := v.(*ssa.UnOp); ok && u.Op == token.MUL {
+		return u.X
+	}
+	return v
 }
